@@ -62,6 +62,10 @@ class Runaway(BaseException):
     """Horizon of one invocation: far more pipeline launches / filesystem mutations than any run of this size needs."""
 
 
+class Outside(BaseException):
+    """The script launched the pipeline with an output directory outside the one it was asked to use."""
+
+
 class Crash(BaseException):
     pass
 
@@ -357,7 +361,9 @@ class Sandbox:
     def __init__(self, cfg, dag_source):
         self.cfg = cfg
         self.base = env.scratch_dir("c19")
-        self.root = os.path.join(self.base, "out")
+        # "odd_path": an output directory whose own path contains pieces that look like step directories
+        self.root = os.path.join(self.base, "plate_384", "iter_7_run", "out") if cfg.get("odd_path") else os.path.join(self.base, "out")
+        os.makedirs(os.path.dirname(self.root), exist_ok=True)
         self.input = os.path.join(self.base, "unmasked_screen.h5")
         with open(self.input, "w") as f:
             observed = list(range(cfg["plates"])) if cfg["mode"] == "retrospective" else [0]
@@ -413,6 +419,9 @@ class Sandbox:
                 raise Runaway(f"{len(fake.launches)} pipeline launches in one invocation for {self.cfg['plates']} plates")
             if counter["dead"]:
                 raise Crash("the process is gone")
+            where = os.path.abspath(parse_cmd(cmd).get("outdir") or "")
+            if not (where + os.sep).startswith(self.root + os.sep):
+                raise Outside(f"launch #{len(fake.launches) + 1} publishes to {where}, which is not below the requested output directory {self.root}")
             counter["in_pipeline"] = True
             at_launch.append(counter["n"])
             try:
@@ -430,7 +439,13 @@ class Sandbox:
         saved_argv = sys.argv
         os.mkdir, os.rmdir, os.unlink = wrap("mkdir"), wrap("rmdir"), wrap("unlink")
         mod.subprocess.check_call = check_call
-        sys.argv = ["batchie.py", "--mode", self.cfg["mode"], "--screen", self.input, "--outdir", self.root,
+        cwd0 = os.getcwd()
+        scr, outd = self.input, self.root
+        if self.cfg.get("relative"):
+            # started from the directory that holds the screen, with relative --screen / --outdir
+            os.chdir(self.base)
+            scr, outd = os.path.relpath(self.input, self.base), os.path.relpath(self.root, self.base)
+        sys.argv = ["batchie.py", "--mode", self.cfg["mode"], "--screen", scr, "--outdir", outd,
                     "--batch-size", str(self.cfg["batch"]), "--n_chains", str(self.cfg["chains"]), "--n_chunks", str(self.cfg["chunks"])]
         res = {"outcome": None, "advice": None, "error": None}
         try:
@@ -440,6 +455,9 @@ class Sandbox:
             res["outcome"] = "crash"
         except Runaway as exc:
             res["outcome"] = "runaway"
+            res["error"] = str(exc)
+        except Outside as exc:
+            res["outcome"] = "outside"
             res["error"] = str(exc)
         except RuntimeError as exc:
             m = ADVICE_RE.search(str(exc))
@@ -456,6 +474,7 @@ class Sandbox:
             os.mkdir, os.rmdir, os.unlink = real["mkdir"], real["rmdir"], real["unlink"]
             mod.subprocess.check_call = saved_cc
             sys.argv = saved_argv
+            os.chdir(cwd0)
         res["tree"] = capture(self.root) if os.path.isdir(self.root) else {}
         res["launches"] = fake.launches
         res["n_script_mutations"] = counter["n"]
@@ -745,6 +764,9 @@ def explore_config(cfg, col, tier, dag_source):
                 if r["outcome"] == "error":
                     violate("error", f"re-running the script fails with {r['error']} instead of progressing or naming a directory", h2)
                     bad = True
+                if r["outcome"] == "outside":
+                    violate("launch-outside-outdir", r["error"], h2)
+                    bad = True
                 if r["outcome"] == "runaway":
                     violate("never-finishes", f"the script does not come to an end ({r['error']}): steps are executed again and again", h2)
                     bad = True
@@ -824,6 +846,13 @@ DEEP = [{"mode": "retrospective", "batch": 1, "plates": 13, "chains": 1, "chunks
         {"mode": "retrospective", "batch": 2, "plates": 23, "chains": 1, "chunks": 1, "max_crashes": 1}]
 
 
+# environment of the invocation: relative --screen / --outdir from another working directory, and an output directory
+# whose own path contains pieces that look like step directories (plate_384/iter_7_run/out)
+ODD = [{"mode": "retrospective", "batch": 2, "plates": 4, "chains": 1, "chunks": 1, "relative": True, "odd_path": True},
+       {"mode": "prospective", "batch": 2, "plates": 6, "chains": 1, "chunks": 1, "iterations": 2, "relative": True, "odd_path": True},
+       {"mode": "retrospective", "batch": 1, "plates": 3, "chains": 1, "chunks": 1, "relative": True}]
+
+
 def configs(tier):
     out = []
     if tier == "quick":
@@ -832,6 +861,7 @@ def configs(tier):
         for (b, it, c, k) in [(1, 2, 1, 1), (2, 2, 1, 1), (3, 2, 1, 1), (2, 2, 2, 2)]:
             out.append({"mode": "prospective", "batch": b, "plates": 2 + b * it, "chains": c, "chunks": k, "iterations": it})
         out += DEEP[:1]
+        out += ODD
     else:
         for b in (1, 2, 3, 4):
             for p in (2, 3, 4, 5):
@@ -843,6 +873,7 @@ def configs(tier):
                 out.append({"mode": "prospective", "batch": b, "plates": 2 + 2 * b, "chains": c, "chunks": k, "iterations": 2})
         out.append({"mode": "retrospective", "batch": 11, "plates": 13, "chains": 1, "chunks": 1})
         out += DEEP
+        out += ODD
     return out
 
 
@@ -895,6 +926,8 @@ def replay(case, col):
                 violate("error", r["error"], [])
             if r["outcome"] == "runaway":
                 violate("never-finishes", r["error"], [])
+            if r["outcome"] == "outside":
+                violate("launch-outside-outdir", r["error"], [])
             _, ever = judge_launches(sb, cfg, r, ref, violate, [], protected)
             new_tree = r["tree"]
             lost = ever - complete_steps(new_tree if r["outcome"] != "advice" else {k: v for k, v in new_tree.items() if not (k == r["advice"] or k.startswith(r["advice"] + "/"))}, ref)
